@@ -1,9 +1,10 @@
 import CalicoVerif.Model.C30
 /-
 C30 (part 2) — model of felix/dataplane/windows/flattener.go: flattenTiers, flattenTiersRecurse,
-appendCombinedRules, combineRules, combineCIDRs, combinePorts (with the behaviour of the
-bits-and-blooms/bitset calls it makes: `Len()` is the CAPACITY of the set, `NextClear(i)` is invalid
-for `i >= Len()`), rewritePriorities; plus the multi-tier reference semantics.
+appendCombinedRules, combineRules, combineCIDRs, combinePorts (as repaired by /repo commit dea4f0a;
+the pre-fix behaviour - "any port" on disjoint lists, panic at the end of the bitset - is kept as
+`combinePortsBeforeFix` for the regression witnesses), rewritePriorities; plus the multi-tier
+reference semantics.
 `none` models a Go panic.  Core Lean only.
 -/
 namespace CalicoVerif.C30
@@ -27,16 +28,25 @@ def runs : List Nat → List PortRange
   | [] => []
   | n :: rest => runsGo n n rest
 
-/-- `bitset.New(2 ^ 16 + 1)`: in Go `^` is XOR and has the precedence of `+`, so this is 19. -/
+/-- combinePorts(as, bs) as repaired (commit dea4f0a): `[]` is the empty string (= any port);
+`none` = ErrRuleIsNoOp (no port in common).  The bitset capacity (65537) has no observable effect
+any more: bit 65536 is always clear, so `NextClear` is always valid; the intersection is computed
+here over `0 .. max port`. -/
+def combinePorts (a b : List PortRange) : Option (List PortRange) :=
+  if a.isEmpty then some b
+  else if b.isEmpty then some a
+  else
+    let len := max (maxPort a) (maxPort b) + 1
+    let s := (List.range len).filter (fun x => inPorts a x && inPorts b x)
+    if s.isEmpty then none else some (runs s)
+
+/-- `bitset.New(2 ^ 16 + 1)` before the fix: in Go `^` is XOR with the precedence of `+`: 19. -/
 def bitsetInitialLen : Nat := 19
 
-/-- combinePorts(as, bs); `[]` is the empty string (= any port); `none` = panic
-("bitset said no end of range").
-* `aBitset.Len() == 0` tests the capacity, which is never 0: an EMPTY intersection falls through
-  the loop and returns "" — no port constraint — with a nil error;
-* `NextClear(start+1)` is invalid when the last run of the intersection reaches the last bit of the
-  set's capacity `max(19, maxA+1, maxB+1)`. -/
-def combinePorts (a b : List PortRange) : Option (List PortRange) :=
+/-- combinePorts BEFORE commit dea4f0a (regression witness only; `none` = panic):
+`aBitset.Len() == 0` tested the capacity, so an empty intersection returned "" (any port); and
+`NextClear(start+1)` was invalid when the last run reached the capacity `max(19, maxA+1, maxB+1)`. -/
+def combinePortsBeforeFix (a b : List PortRange) : Option (List PortRange) :=
   if a.isEmpty then some b
   else if b.isEmpty then some a
   else
@@ -56,6 +66,8 @@ def combineCIDRs (a b : List Addr) : Option (List Addr) :=
     let i := intersectCIDRs a b
     if i.isEmpty then none else some i
 
+/-- Result of combineRules.  `panic` is kept for the `panic(err)` sites of parsePorts (strconv.Atoi
+on a malformed port string), which no generated rule reaches; the model never produces it. -/
 inductive Comb (α : Type)
   | panic
   | noOp
@@ -66,12 +78,14 @@ deriving Repr
 def mkComb (r2 : HRule) (pr : Nat) (la ra : List Addr) (lp rp : List PortRange) : HRule :=
   { r2 with proto := pr, lAddrs := la, rAddrs := ra, lPorts := lp, rPorts := rp }
 
+/-- The protocol step of combineRules (256 = any); `none` = the rule would be a no-op. -/
+def combineProto (p1 p2 : Nat) : Option Nat :=
+  if p1 ≠ 256 then (if p2 = 256 then some p1 else if p1 ≠ p2 then none else some p2)
+  else some p2
+
 /-- combineRules(r1, r2): r1 && r2 with the action / id / priority of r2. -/
 def combineRules (r1 r2 : HRule) : Comb HRule :=
-  let proto : Option Nat :=
-    if r1.proto ≠ 256 then (if r2.proto = 256 then some r1.proto else if r1.proto ≠ r2.proto then none else some r2.proto)
-    else some r2.proto
-  match proto with
+  match combineProto r1.proto r2.proto with
   | none => .noOp
   | some pr =>
     match combineCIDRs r1.lAddrs r2.lAddrs with
@@ -81,10 +95,10 @@ def combineRules (r1 r2 : HRule) : Comb HRule :=
       | none => .noOp
       | some ra =>
         match combinePorts r1.lPorts r2.lPorts with
-        | none => .panic
+        | none => .noOp
         | some lp =>
           match combinePorts r1.rPorts r2.rPorts with
-          | none => .panic
+          | none => .noOp
           | some rp => .ok (mkComb r2 pr la ra lp rp)
 
 /-- appendCombinedRules: `none` = panic. -/
